@@ -5,6 +5,7 @@ import (
 	"encoding/hex"
 	"fmt"
 	"os"
+	"runtime/debug"
 	"sort"
 	"testing"
 	"testing/cryptotest"
@@ -79,11 +80,15 @@ func RunPlanInto(t *testing.T, p *Plan, wantLog bool, rec *Record) *Record {
 		synctest.Test(t, func(t *testing.T) {
 			simrt.Start(p.Seed, p.Cfg.PreemptP, p.Cfg.Spread)
 			simrt.S.Sites = map[string]int{}
+			simrt.S.ChanCap = p.Cfg.ChanCap
 			w := NewWorld(p.Seed, p.Cfg)
 			func() {
 				defer func() {
 					if r := recover(); r != nil {
 						rec.Infra = fmt.Sprintf("panic in scenario: %v", r)
+						if os.Getenv("SIM_PANIC_STACK") != "" {
+							rec.Infra += "\n" + string(debug.Stack())
+						}
 					}
 				}()
 				body(w, p, rec)
